@@ -1331,6 +1331,10 @@ def _read_graph_dimacs_format(inputfile, graph_class):
 
         l = l.strip()
 
+        # empty line
+        if len(l) == 0:
+            continue
+
         # add the comment to the header
         if l[0] == 'c':
             name += l[2:]
